@@ -1,5 +1,6 @@
 SPECIFICATION Spec
 CONSTANTS
   Orders = {3, 4}
+  WideOrders = {3}
   SoftOrders = {3}
 INVARIANT SpecOK
